@@ -24,6 +24,12 @@ TABLE = dict(CONFIG["timezones"])
 CURRENCY_CODES = {k.upper() for k in CONFIG["currencies"]} | {v["code"].upper() for v in CONFIG["currencies"].values()}
 # zone names the zone syntax (?P<timezone_1>[A-Z]{2,4}) can express and that are not also currency codes (TMT, WST)
 ZONES = sorted(z for z in TABLE if re.fullmatch(r"[A-Z]{2,4}", z) and z not in CURRENCY_CODES)
+TR_MONTH_WORDS = set()
+try:
+    _c = json.load(open("/repo/src/json/config.json", encoding="utf-8"))["languages"]["tr"]
+    TR_MONTH_WORDS = {w.lower() for w in list(_c.get("long_months", {})) + list(_c.get("short_months", {}))}
+except Exception:
+    pass
 KNOWN_BOTH_ZONED = "C11-both-operands-zoned-on-one-line"
 UNITS = {"second": 1, "seconds": 1, "minute": 60, "minutes": 60, "hour": 3600, "hours": 3600, "day": 86400, "days": 86400,
          "week": 604800, "weeks": 604800}
@@ -184,6 +190,8 @@ def generate(rng, tier):
         zt, zn, zo = zone(rng)
         # a time with a zone needs no language word: one case in five is evaluated under language tr
         lang = "tr" if rng.random() < 0.2 else "en"
+        if zt.lower() in TR_MONTH_WORDS:
+            lang = "en"                   # MART is Marquesas Time and, under tr, the month March: the month parser runs first
         cases.append(mk("%s %s" % (tt, zt), pre, dflt, "literal-zone" + ("-tr" if lang == "tr" else ""), lang=lang,
                         w=w, zone=[zn, zo], shown=w, rel=w - 60 * zo))
     # --- every table zone once as a literal zone and once as the default (finite table)
